@@ -51,3 +51,14 @@ Print Assumptions C15_skip_whitespaces.
 Print Assumptions C15_merge_whitespaces.
 Print Assumptions C15_unify_numbers.
 Print Assumptions C15_no_options_untouched.
+
+(* State space: the objects this property's model stands for have exactly the fields the model accounts for (StateSpace.v;
+   gen/StateSpaceGen.v is regenerated from the Go sources on every run). A new field - a cache, a memo, a counter - is state
+   the model does not have, so the theorems above would no longer be about the object. *)
+From Coq Require Import String.
+Require Import StateSpaceGen StateSpace.
+Open Scope string_scope.
+Theorem C15_state_space :
+  fields_of "tokenizers.AbstractTokenizer" = fields ["Overrides"; "mp"; "skipUnknown"; "skipWhitespaces"; "skipComments"; "skipEof"; "mergeWhitespaces"; "unifyNumbers"; "decodeStrings"; "commentState"; "numberState"; "quoteState"; "symbolState"; "whitespaceState"; "wordState"; "Scanner"; "NextTokenValue"; "LastTokenType"].
+Proof. vm_compute. repeat split; reflexivity. Qed.
+Print Assumptions C15_state_space.
